@@ -611,7 +611,7 @@ def _only_phase_bypass(ctx, f, rb):
         if x in rb:
             continue
         for y, _l in f.succs(x):
-            if y in region and y not in can:
+            if y in region and y not in can and any(f.blocks[z]["term"]["k"] == "return" for z in f.reachable(y)):
                 byp.add(y)
     fl = Flow(ctx.prog, ctx.mods, f, lambda k: k[0] == "val" and k[1] == "self.send_state")
     for y in byp:
